@@ -289,7 +289,12 @@ func New(seed uint64, c NodeConf) (*Puppet, error) {
 }
 
 // NewOn creates the real node on an existing network.
-func NewOn(n *simnet.Network, seed uint64, c NodeConf) (*Puppet, error) {
+func NewOn(n *simnet.Network, seed uint64, c NodeConf) (*Puppet, error) { return NewOnPre(n, seed, c, nil) }
+
+// NewOnPre is NewOn with a hook that runs after the endpoint and the recorder exist and before Create is called (the
+// listeners of a node are running while Create is still asking its delegate for the metadata, so traffic can arrive
+// during start-up; see Recorder.OnNodeMeta).
+func NewOnPre(n *simnet.Network, seed uint64, c NodeConf, pre func(*Puppet)) (*Puppet, error) {
 	p := &Puppet{Net: n, Conf: c, Rec: NewRecorder(), Codec: c.Codec(), Peers: map[string]*Peer{}, Seed: seed, Log: &LogBuf{}}
 	p.EP = n.NewEndpoint(c.IP, c.Port, nil)
 	mc, err := c.Build(p.EP, p.Rec, p.Log)
@@ -297,6 +302,9 @@ func NewOn(n *simnet.Network, seed uint64, c NodeConf) (*Puppet, error) {
 		return nil, err
 	}
 	p.MC = mc
+	if pre != nil {
+		pre(p)
+	}
 	m, err := memberlist.Create(mc)
 	if err != nil {
 		return nil, err
